@@ -211,9 +211,8 @@ func (msg *MessageTransport) FromBytes(src []byte) error {
 	if err := binary.Read(buf, MessageBytesOrder, &msg.Counter); err != nil {
 		return err
 	}
-	if buf.Len() > 0 {
-		msg.Content = append(msg.Content, buf.Bytes()...)
-	}
+	// replace, not extend, what a reused message still holds
+	msg.Content = append(msg.Content[:0], buf.Bytes()...)
 	return nil
 }
 
